@@ -39,7 +39,11 @@ def _check_valid_resolution(run):
     ok = "VALIDATOR[typ](value)" in src and "typ.split(':')" in src and \
         "typ = 'string'" in src
     if final:
-        last = final[-1].value
+        from ..dataflow import inline_expr
+        vcfg = cfg_of(fi, m)
+        lnode = vcfg.node_of_stmt(final[-1])
+        last = inline_expr(vcfg.rd, final[-1].value, lnode.id) \
+            if lnode is not None else final[-1].value
         if isinstance(last, ast.Call) and isinstance(last.func, ast.Call) and \
                 attr_chain(last.func.func) == "VALIDATOR.get" and \
                 len(last.func.args) == 2 and \
@@ -232,16 +236,19 @@ def v4_engine(run):
     run.check(vl == {"len(value)", "1"}, "V4", fi.qual + "::vlen",
               "vlen = len(list) or 1", "vlen computed as %s" % sorted(vl),
               fi.loc(), nontrivial=False)
-    cm = {unparse(s.value) for s in walk_no_nested(fi.node)
-          if isinstance(s, ast.Assign) and unparse(s.targets[0]) in
-          ("_cmin", "_cmax") and "[" in unparse(s.value)}
-    run.check(cm == {"_card['min']", "_card['max']"}, "V4", fi.qual + "::bounds",
+    from ..inline import helper_cone
+    cone = helper_cone(m, fi)
+    subs = [x for f in cone for x in ast.walk(f.node)
+            if isinstance(x, ast.Subscript)]
+    cm = {x.slice.value for x in subs if isinstance(x.slice, ast.Constant)
+          and x.slice.value in ("min", "max")}
+    run.check(cm == {"min", "max"}, "V4", fi.qual + "::bounds",
               "bounds read from c_cardinality[name]",
               "bounds read as %s" % sorted(cm), fi.loc(), nontrivial=False)
-    cd = [s for s in walk_no_nested(fi.node) if isinstance(s, ast.Assign) and
-          unparse(s.targets[0]) == "_card"]
-    run.check(any(unparse(s.value) == "instclass.c_cardinality[name]"
-                  for s in cd), "V4", fi.qual + "::card-lookup",
+    run.check(any(isinstance(x.value, ast.Attribute) and
+                  x.value.attr == "c_cardinality" and
+                  isinstance(x.slice, ast.Name) for x in subs), "V4",
+              fi.qual + "::card-lookup",
               "looked up by member name", "cardinality lookup changed",
               fi.loc(), nontrivial=False)
     # the cardinality raises must not be conditional on anything but _card
